@@ -57,6 +57,58 @@ Section CoversMain.
     destruct k; try exact Hone. discriminate Hio.
   Qed.
 
+  Lemma struct_case_gen skip ty (props : list (ustring * schema)) req ap nn ps deny :
+    ty_is nn ty [TObject] = true ->
+    NoDup (wire_names ps) ->
+    ap_simple ap = Some deny ->
+    (forall kv, In kv props -> is_skip skip (fst kv) = false ->
+       Cv (snd kv) /\ frag cls keys (snd kv) = true /\ mem_ustr (fst kv) req || negb (is_one (snd kv)) = true) ->
+    AllP (fun kv => is_skip skip (fst kv) = true \/ exists p, In p ps /\ member_sh cls T (shape cls D T) req kv p) props ->
+    (forall p, In p ps -> exists kv, In kv props /\ is_skip skip (fst kv) = false /\ wire_name p = Some (fst kv)) ->
+    struct_case re native T cov ty props req ap skip nn ps deny = true.
+  Proof.
+    intros Hty Hndw Hap Hall HM Hback.
+    rewrite AllP_In in HM.
+    unfold struct_case. rewrite Hty, (nodup_ustr_NoDup _ Hndw). cbn [andb].
+    assert (H0 : match skip with Some tg => negb (mem_ustr tg (wire_names ps)) | None => true end = true).
+    { destruct skip as [tg|]; [|reflexivity]. apply negb_true_iff.
+      destruct (mem_ustr tg (wire_names ps)) eqn:E; [|reflexivity]. exfalso. apply mem_ustr_In in E.
+      assert (Hex : exists p, In p ps /\ wire_name p = Some tg).
+      { clear - E. induction ps as [|q l IH]; [destruct E|]. rewrite wire_names_cons in E.
+        destruct (wire_name q) as [w'|] eqn:Hq.
+        - destruct E as [<-|E]; [exists q; split; [left; reflexivity|exact Hq]|].
+          destruct (IH E) as (p & Hp & Hpw). exists p. split; [right; exact Hp|exact Hpw].
+        - destruct (IH E) as (p & Hp & Hpw). exists p. split; [right; exact Hp|exact Hpw]. }
+      destruct Hex as (p & Hp & Hpw). destruct (Hback p Hp) as (kv & _ & Hsk & Hw). rewrite Hpw in Hw. injection Hw as Hw.
+      cbn [is_skip] in Hsk. rewrite <- Hw, ustr_eqb_refl in Hsk. discriminate. }
+    rewrite H0. cbn [andb].
+    assert (H1 : props_ok re native T cov props req skip ps = true).
+    { unfold props_ok. apply forallb_forall. intros [k s'] Hin. cbn [fst snd].
+      destruct (is_skip skip k) eqn:Hsk; [reflexivity|]. cbn [orb].
+      destruct (HM (k, s') Hin) as [Hx|(p & Hp & Hw & _ & Hcase)]; [cbn [fst] in Hx; congruence|]. cbn [fst snd] in *.
+      rewrite (find_wire k ps p Hndw Hp Hw).
+      destruct (Hall (k, s') Hin Hsk) as (HCs & Hfs & Hos). cbn [fst snd] in *.
+      destruct Hcase as [(Hreq & _ & Hsh)|(Hnreq & Hst & [(Hsh & d & Hd & Hi)|(t' & Ht' & Hsh & _)])].
+      - rewrite (Cv_covers s' _ false HCs Hfs Hsh), Hreq. reflexivity.
+      - rewrite (Cv_covers s' _ false HCs Hfs Hsh). cbn [andb].
+        rewrite (missing_optional re native T p d Hst Hd); [apply orb_true_r|].
+        destruct d; try discriminate Hi; exact I.
+      - rewrite (covers_frag_Gs cls re native D T s' false (p_ty p) Hfs). unfold FT.
+        rewrite Hnreq in Hos. cbn [orb] in Hos. apply negb_true_iff in Hos.
+        rewrite (Gs_option cls re native D T s' 5 false (p_ty p) t' Hfs (frag_not_one s' Hfs Hos) Ht' (HCs Hfs t' Hsh 3%nat true)).
+        cbn [andb]. rewrite (missing_optional re native T p (DOption t') Hst Ht' I). apply orb_true_r. }
+    rewrite H1. cbn [andb].
+    assert (H2 : forallb (fun p => match wire_name p with None => true | Some w => has_key w props end) ps = true).
+    { apply forallb_forall. intros p Hp. destruct (Hback p Hp) as ([k s'] & Hkv & _ & Hw). cbn [fst] in Hw. rewrite Hw.
+      apply has_key_true. apply (In_assoc k props s'). exact Hkv. }
+    rewrite H2. cbn [andb].
+    assert (H3 : flat_props ps = []).
+    { unfold flat_props. apply filter_none. intros p Hp. destruct (Hback p Hp) as (kv & _ & _ & Hw).
+      unfold wire_name in Hw. destruct (p_rename p); [reflexivity|reflexivity|discriminate]. }
+    unfold flat_map_value. rewrite H3.
+    destruct ap as [[[|]|]|]; cbn in Hap; try discriminate; injection Hap as <-; reflexivity.
+  Qed.
+
   Lemma struct_case_sh ty (props : list (ustring * schema)) req ap nn ps deny :
     ty_is nn ty [TObject] = true ->
     NoDup (wire_names ps) ->
@@ -69,32 +121,11 @@ Section CoversMain.
     struct_case re native T cov ty props req ap None nn ps deny = true.
   Proof.
     intros Hty Hndw Hap HC Hfr Hopt HM Hback.
-    rewrite AllP_In in HM. rewrite Forall_forall in HC. rewrite forallb_forall in Hfr. rewrite forallb_forall in Hopt.
-    unfold struct_case. rewrite Hty, (nodup_ustr_NoDup _ Hndw). cbn [andb].
-    assert (H1 : props_ok re native T cov props req None ps = true).
-    { unfold props_ok. apply forallb_forall. intros [k s'] Hin. cbn [is_skip orb fst snd].
-      destruct (HM (k, s') Hin) as (p & Hp & Hw & _ & Hcase). cbn [fst snd] in *.
-      rewrite (find_wire k ps p Hndw Hp Hw).
-      pose proof (HC _ Hin) as HCs. pose proof (Hfr _ Hin) as Hfs. pose proof (Hopt _ Hin) as Hos. cbn [fst snd] in *.
-      destruct Hcase as [(Hreq & _ & Hsh)|(Hnreq & Hst & [(Hsh & d & Hd & Hi)|(t' & Ht' & Hsh & _)])].
-      - rewrite (Cv_covers s' _ false HCs Hfs Hsh), Hreq. reflexivity.
-      - rewrite (Cv_covers s' _ false HCs Hfs Hsh). cbn [andb].
-        rewrite (missing_optional re native T p d Hst Hd); [apply orb_true_r|].
-        destruct d; try discriminate Hi; exact I.
-      - rewrite (covers_frag_Gs cls re native D T s' false (p_ty p) Hfs). unfold FT.
-        rewrite Hnreq in Hos. cbn [orb] in Hos. apply negb_true_iff in Hos.
-        rewrite (Gs_option cls re native D T s' 5 false (p_ty p) t' Hfs (frag_not_one s' Hfs Hos) Ht' (HCs Hfs t' Hsh 3%nat true)).
-        cbn [andb]. rewrite (missing_optional re native T p (DOption t') Hst Ht' I). apply orb_true_r. }
-    rewrite H1. cbn [andb].
-    assert (H2 : forallb (fun p => match wire_name p with None => true | Some w => has_key w props end) ps = true).
-    { apply forallb_forall. intros p Hp. destruct (Hback p Hp) as ([k s'] & Hkv & Hw). cbn [fst] in Hw. rewrite Hw.
-      apply has_key_true. apply (In_assoc k props s'). exact Hkv. }
-    rewrite H2. cbn [andb].
-    assert (H3 : flat_props ps = []).
-    { unfold flat_props. apply filter_none. intros p Hp. destruct (Hback p Hp) as (kv & _ & Hw).
-      unfold wire_name in Hw. destruct (p_rename p); [reflexivity|reflexivity|discriminate]. }
-    unfold flat_map_value. rewrite H3.
-    destruct ap as [[[|]|]|]; cbn in Hap; try discriminate; injection Hap as <-; reflexivity.
+    rewrite Forall_forall in HC. rewrite forallb_forall in Hfr. rewrite forallb_forall in Hopt.
+    apply struct_case_gen; try assumption.
+    - intros kv Hin _. split; [exact (HC kv Hin)|]. split; [exact (Hfr kv Hin)|exact (Hopt kv Hin)].
+    - apply AllP_In. intros kv Hin. right. exact (proj1 (AllP_In _ _) HM kv Hin).
+    - intros p Hp. destruct (Hback p Hp) as (kv & Hkv & Hw). exists kv. repeat split; assumption.
   Qed.
 
   Lemma cov_list_sh : forall its ts0, Forall Cv its -> forallb (frag cls keys) its = true ->
@@ -119,9 +150,32 @@ Section CoversMain.
   Lemma ty_is_one nn t : t <> TNull -> ty_is nn (Some [t]) [t] = true.
   Proof. intro H. destruct nn, t; try reflexivity; congruence. Qed.
 
+  (* the data of a variant covers its payload schema *)
+  Lemma payload_cov sc deny vr :
+    Cv2 sc -> frag cls keys sc = true -> payload_sh cls T (shape cls D T) sc deny (v_det vr) ->
+    payload_ok cov sc deny vr = true.
+  Proof.
+    intros [HCsc HCPsc] Hfb Hpsh.
+    unfold payload_ok. destruct (v_det vr) as [|t'|ts|ps]; cbn [payload_sh] in Hpsh.
+    - contradiction.
+    - exact (Cv_covers sc t' false HCsc Hfb Hpsh).
+    - destruct Hpsh as [Hcl' Hall]. apply (proj2 (HCPsc Hfb) ts Hcl').
+      destruct sc; [contradiction|exact Hall].
+    - destruct Hpsh as [Hcl' Hss]. apply (proj1 (HCPsc Hfb) ps deny Hcl').
+      destruct sc; [contradiction|exact Hss].
+  Qed.
+
+  Lemma one_frags_In tg : forall bs b, one_frags cls D tg bs = true -> In b bs ->
+    branch_fold cls tg (NRequired []) (fun sc _ => frag cls keys sc) andb true b = true.
+  Proof.
+    induction bs as [|b0 r IH]; intros b Hfrs Hb; [destruct Hb|].
+    rewrite one_frags_cons in Hfrs. apply andb_true_iff in Hfrs. destruct Hfrs as [H1 H2].
+    destruct Hb as [<-|Hb]; [exact H1|exact (IH b H2 Hb)].
+  Qed.
+
   Lemma conv_C2 : forall s, Cv2 s.
   Proof.
-    apply schema_ind_x.
+    apply schema_ind_p.
     - intros b. split; [intros Hf; discriminate Hf|intros Hf; discriminate Hf].
     - intros ty fmt enum cst nv sv ik items ai mni mxi uq props req ap mnp mxp allo anyo oneo no ref dflt title
              IHitems2 IHprops2 IHap2 IHone.
@@ -225,47 +279,86 @@ Section CoversMain.
       + destruct Hrk as [(r & -> & ->)|[(-> & ->)|(bs & tg & -> & -> & -> & Hok)]]; cbn [kshape] in Hs.
         * subst oneo. destruct Hs as (Hri & d & Hd & _). eapply go_ref; [exact Hd|reflexivity|]. apply mem_pair_ref. exact Hri.
         * subst oneo. apply go_json. exact Hs.
-        * (* an externally tagged oneOf *)
-          assert (Htg : tg = TagExternal).
-          { clear - Hf. cbn [frag_kind] in Hf. apply andb_true_iff in Hf. destruct Hf as [_ Hp].
-            destruct tg; try discriminate Hp. reflexivity. }
-          subst tg.
+        * (* a tagged oneOf *)
           destruct Hs as (n & vs & deny & bes & names & ids & Hd & Hnames & Hndn & Hv & Hraw & Hident & Hbr).
-          cbn [frag_kind variant_names] in Hf. rewrite Hnames in Hf.
-          apply andb_true_iff in Hf. destruct Hf as [Hf _].
-          apply andb_true_iff in Hf. destruct Hf as [Hf Hfrs]. apply andb_true_iff in Hf. destruct Hf as [_ Hpay].
-          eapply go_union; [exact Hd|reflexivity|reflexivity|]. cbn [union_ok].
-          apply forallb_forall. intros b Hb.
-          pose proof (proj1 (AllP_In _ _) Hbr b Hb) as Hbsh.
+          cbn [frag_kind] in Hf. rewrite Hnames in Hf.
+          apply andb_true_iff in Hf. destruct Hf as [Hf Hpt].
+          apply andb_true_iff in Hf. destruct Hf as [Hf Hfrs]. apply andb_true_iff in Hf. destruct Hf as [_ Hbok].
           assert (Hndv : NoDup (map v_raw vs)) by (rewrite Hraw; exact Hndn).
-          cbn [OForall] in IHone. rewrite Forall_forall in IHone. pose proof (IHone b Hb) as IHb.
-          assert (Hfb : branch_fold cls TagExternal (NRequired []) (fun sc _ => frag cls keys sc) andb true b = true).
-          { clear - Hfrs Hb. induction bs as [|b0 r IH]; [destruct Hb|].
-            rewrite one_frags_cons in Hfrs. apply andb_true_iff in Hfrs. destruct Hfrs as [H1 H2].
-            destruct Hb as [<-|Hb]; [exact H1|exact (IH H2 Hb)]. }
-          destruct (xall_names_In bs names b Hnames Hb) as (l & Hl).
-          destruct (xnames_cases b l Hl) as [(es & -> & Hj & Hne)|(v & sc & -> & ->)].
-          -- (* unit variants *)
-             cbn [external_branch_ok xsimple_sch]. rewrite ty_is_one by discriminate. cbn [andb].
-             apply orb_true_iff. left. rewrite (jstrs_map _ _ Hj). apply forallb_forall. intros e Hein.
-             apply in_map_iff in Hein. destruct Hein as (x & <- & Hx). cbn [str_simple].
-             cbn [branch_sh xsimple_sch] in Hbsh.
-             destruct (Hbsh l (xsimple_sch_spec es l Hj Hne) x Hx) as (vr & Hvr & Hrw & Hdt).
-             destruct (find_variant_nodup vs Hndv vr 0%nat Hvr) as (i & Hfv). rewrite Hrw in Hfv. rewrite Hfv, Hdt. reflexivity.
-          -- (* a variant with data *)
-             cbn [external_branch_ok xbranch]. rewrite ty_is_one by discriminate. cbn [is_ap_false andb fst snd].
-             apply orb_true_iff. right. unfold mem_ustr. cbn [existsb]. rewrite ustr_eqb_refl. cbn [orb andb].
-             cbn [branch_sh xbranch] in Hbsh. destruct Hbsh as (vr & Hvr & Hrw & Hpsh).
+          cbn [OForall] in IHone. rewrite Forall_forall in IHone.
+          destruct tg as [|tg|tg ct|]; [| | |discriminate Hpt];
+            (eapply go_union; [exact Hd|reflexivity|reflexivity|]); cbn [union_ok];
+            apply forallb_forall; intros b Hb;
+            pose proof (proj1 (AllP_In _ _) Hbr b Hb) as Hbsh; pose proof (IHone b Hb) as IHb;
+            pose proof (one_frags_In _ bs b Hfrs Hb) as Hfb.
+          -- (* externally tagged *)
+             cbn [variant_names] in Hnames.
+             destruct (xall_names_In bs names b Hnames Hb) as (l & Hl).
+             destruct (xnames_cases b l Hl) as [(es & -> & Hj & Hne)|(v & sc & -> & ->)].
+             ++ cbn [external_branch_ok xsimple_sch]. rewrite ty_is_one by discriminate. cbn [andb].
+                apply orb_true_iff. left. rewrite (jstrs_map _ _ Hj). apply forallb_forall. intros e Hein.
+                apply in_map_iff in Hein. destruct Hein as (x & <- & Hx). cbn [str_simple].
+                cbn [branch_sh xsimple_sch] in Hbsh.
+                destruct (Hbsh l (xsimple_sch_spec es l Hj Hne) x Hx) as (vr & Hvr & Hrw & Hdt).
+                destruct (find_variant_nodup vs Hndv vr 0%nat Hvr) as (i & Hfv). rewrite Hrw in Hfv. rewrite Hfv, Hdt. reflexivity.
+             ++ cbn [external_branch_ok xbranch]. rewrite ty_is_one by discriminate. cbn [is_ap_false andb fst snd].
+                apply orb_true_iff. right. unfold mem_ustr. cbn [existsb]. rewrite ustr_eqb_refl. cbn [orb andb].
+                cbn [branch_sh xbranch] in Hbsh. destruct Hbsh as (vr & Hvr & Hrw & Hpsh).
+                destruct (find_variant_nodup vs Hndv vr 0%nat Hvr) as (i & Hfv). rewrite Hrw in Hfv. rewrite Hfv.
+                cbn [branch_fold xbranch] in Hfb.
+                exact (payload_cov sc deny vr (IHb v sc (or_introl eq_refl)) Hfb Hpsh).
+          -- (* internally tagged *)
+             cbn [branches_ok] in Hbok. apply andb_true_iff in Hbok. destruct Hbok as [Hbok _].
+             rewrite forallb_forall in Hbok. pose proof (Hbok b Hb) as Hcb. change (int_cond cls tg b = true) in Hcb.
+             destruct (int_branch_cases cls tg b Hcb) as (bprops & breq & closed & x & -> & Ha & Hreq & Hhas & Hks & Hun & Hopt).
+             cbn [internal_branch_ok tbranch]. rewrite ty_is_one by discriminate. rewrite Hreq, Ha. cbn [andb].
+             cbn [str_enum_names xsimple_sch strs option_map forallb]. rewrite andb_true_r.
+             cbn [branch_sh tbranch] in Hbsh. rewrite Ha in Hbsh. destruct (Hbsh x eq_refl) as (vr & Hvr & Hrw & Hdet).
              destruct (find_variant_nodup vs Hndv vr 0%nat Hvr) as (i & Hfv). rewrite Hrw in Hfv. rewrite Hfv.
-             cbn [branch_fold xbranch] in Hfb.
-             destruct (IHb v sc (xtyped_sch v sc)) as [HCsc HCPsc].
-             unfold payload_ok. destruct (v_det vr) as [|t'|ts|ps]; cbn [payload_sh] in Hpsh.
-             ++ contradiction.
-             ++ exact (Cv_covers sc t' false HCsc Hfb Hpsh).
-             ++ destruct Hpsh as [Hcl' Hall]. apply (proj2 (HCPsc Hfb) ts Hcl').
-                destruct sc; [contradiction|exact Hall].
-             ++ destruct Hpsh as [Hcl' Hss]. apply (proj1 (HCPsc Hfb) ps deny Hcl').
-                destruct sc; [contradiction|exact Hss]. }
+             destruct bprops as [|[k1 s1'] [|kv2 rest]].
+             ++ discriminate Ha.
+             ++ rewrite Hdet. reflexivity.
+             ++ destruct Hdet as (ps & Hdt & (Hndw & Hndn' & HM & Hback) & Hdeny). rewrite Hdt.
+                cbn [branch_fold tbranch name_opt] in Hfb.
+                rewrite (ifold_frag cls D tg ((k1, s1') :: kv2 :: rest)) in Hfb. rewrite forallb_forall in Hfb, Hopt.
+                apply struct_case_gen.
+                ** apply ty_is_one. discriminate.
+                ** exact Hndw.
+                ** rewrite Hdeny. destruct closed; reflexivity.
+                ** intros kv Hin Hsk. cbn [is_skip] in Hsk.
+                   assert (Hinr : In kv (rest_of tg ((k1, s1') :: kv2 :: rest))).
+                   { unfold rest_of. apply filter_In. split; [exact Hin|]. rewrite Hsk. reflexivity. }
+                   split; [exact (proj1 (IHb (fst kv) (snd kv) ltac:(destruct kv; exact Hin)))|].
+                   split; [exact (Hfb kv Hinr)|exact (Hopt kv Hinr)].
+                ** exact HM.
+                ** exact Hback.
+          -- (* adjacently tagged *)
+             cbn [branches_ok] in Hbok. apply andb_true_iff in Hbok. destruct Hbok as [Hbok _].
+             apply andb_true_iff in Hbok. destruct Hbok as [Hbok Htc]. apply negb_true_iff in Htc.
+             rewrite forallb_forall in Hbok. pose proof (Hbok b Hb) as Hcb. change (adj_cond tg ct b = true) in Hcb.
+             destruct (adj_branch_cases tg ct b Htc Hcb) as (breq & x & Hreq & [->|[(Hcr & sc & ->)|(Hcr & sc & ->)]]);
+               cbn [adjacent_branch_ok tbranch]; rewrite ty_is_one by discriminate; rewrite Htc, Hreq; cbn [negb andb assoc];
+               rewrite ?ustr_eqb_refl, ?Htc, ?(ueqb_sym ct tg);
+               cbn [str_enum_names xsimple_sch strs option_map forallb]; rewrite ?andb_true_r;
+               cbn [branch_sh tbranch] in Hbsh.
+             ++ destruct (Hbsh x eq_refl) as (vr & Hvr & Hrw & Hdt).
+                destruct (find_variant_nodup vs Hndv vr 0%nat Hvr) as (i & Hfv). rewrite Hrw in Hfv. rewrite Hfv.
+                cbn [fst snd]. rewrite ustr_eqb_refl. cbn [orb andb].
+                unfold has_key. cbn [assoc]. rewrite (ueqb_sym ct tg), Htc, Hdt. reflexivity.
+             ++ rewrite ustr_eqb_refl in Hbsh. destruct (Hbsh x eq_refl) as (vr & Hvr & Hrw & Hpsh).
+                destruct (find_variant_nodup vs Hndv vr 0%nat Hvr) as (i & Hfv). rewrite Hrw in Hfv. rewrite Hfv.
+                cbn [branch_fold tbranch] in Hfb. rewrite ustr_eqb_refl in Hfb. cbn [cstr xsimple_sch] in Hfb.
+                cbn [fst snd]. rewrite !ustr_eqb_refl, (ueqb_sym ct tg), Htc. cbn [orb andb].
+                rewrite (payload_cov sc deny vr (IHb ct sc (or_intror (or_introl eq_refl))) Hfb Hpsh). cbn [andb].
+                unfold has_key. cbn [assoc]. rewrite (ueqb_sym ct tg), Htc, ustr_eqb_refl, Hcr. cbn [is_ap_false andb].
+                apply orb_true_r.
+             ++ rewrite (ueqb_sym ct tg), Htc in Hbsh. destruct (Hbsh x eq_refl) as (vr & Hvr & Hrw & Hpsh).
+                destruct (find_variant_nodup vs Hndv vr 0%nat Hvr) as (i & Hfv). rewrite Hrw in Hfv. rewrite Hfv.
+                cbn [branch_fold tbranch] in Hfb. rewrite (ueqb_sym ct tg), Htc in Hfb. cbn [cstr xsimple_sch] in Hfb.
+                cbn [fst snd]. rewrite !ustr_eqb_refl, (ueqb_sym ct tg), Htc. cbn [orb andb].
+                rewrite (payload_cov sc deny vr (IHb ct sc (or_introl eq_refl)) Hfb Hpsh). cbn [andb].
+                unfold has_key. cbn [assoc]. rewrite ustr_eqb_refl, Hcr. cbn [is_ap_false andb].
+                apply orb_true_r. }
       { (* ---- a struct / tuple payload against the data of a variant *)
       intros Hf. split.
       + intros ps deny Hcl Hss. cbn [classify_s] in Hcl. cbn [sch_props sch_required] in Hss.
